@@ -2345,7 +2345,37 @@ class AffineReexpression(Contract):
 
     def lemmas_at_exit(self, s, result):
         vc = cur()
-        s.ready = False
+        s.ready, s.blocked = False, None
+
+        class _Abandon(Exception):
+            pass
+
+        def probe(fact):
+            # private 3 s look-ahead: on the unchanged tree every step below closes in < 0.1 s.  When an edit of the code breaks a step, the
+            # remaining steps would each run into the full solver budget on each of the 9 paths; instead the chain is abandoned and the path gets ONE
+            # fail-closed obligation (tagged over-approximate: refuted + native failing input = VIOLATION, otherwise undecided - never a proof)
+            sv = z3.Solver()
+            sv.set('timeout', 3000)
+            for a_ in list(getattr(vc, 'axioms', []) or []) + list(vc.pc):
+                sv.add(a_)
+            sv.add(z3.Not(fact))
+            return sv.check() == z3.unsat
+
+        class _Steps:
+            @staticmethod
+            def cut(name, fact):
+                if not probe(fact):
+                    s.blocked = (name, fact)
+                    raise _Abandon()
+                vc.cut(name, fact)
+        real_vc, vc_ = vc, _Steps
+        try:
+            self._chain(s, result, real_vc, vc_)
+        except _Abandon:
+            real_vc.taint('affine lemma chain abandoned at step "%s" (not provable within the look-ahead budget)' % s.blocked[0])
+        return []
+
+    def _chain(self, s, result, vc, steps):
         if not self._ok(s, result) or not _bi.all(mm.plain for mm in s.models):
             return []
         m, d, n, j0 = self.m, self.m + 1, s.n, s.j0
@@ -2353,37 +2383,37 @@ class AffineReexpression(Contract):
         X1, X2 = o1._X, o2._X
         m1, m2 = s.models
         (Xf1, y1), (Xf2, y2) = m1.fits[0], m2.fits[0]
-        vc.cut('both regressor matrices have one row per draw and one column per summary', z3.And(X1.shape[0] == n, X2.shape[0] == n, X1.shape[1] == m, X2.shape[1] == m))
-        vc.cut('the regressors of the second call are those of the first call times A (the shift c cancels in simulated - observed)',
+        steps.cut('both regressor matrices have one row per draw and one column per summary', z3.And(X1.shape[0] == n, X2.shape[0] == n, X1.shape[1] == m, X2.shape[1] == m))
+        steps.cut('the regressors of the second call are those of the first call times A (the shift c cancels in simulated - observed)',
                forall_range(0, n, lambda r: z3.And([X2.at(r, c) == _rsum(X1.at(r, u) * s.A[u][c] for u in range(m)) for c in range(m)]), 'r'))
         k1, sel1, rank1, mk1 = o1._finite[0].select()
         k2, sel2, rank2, mk2 = o2._finite[0].select()
-        vc.cut('the two calls keep the same rows: the masks have the same contents',
+        steps.cut('the two calls keep the same rows: the masks have the same contents',
                z3.And(mk1.shape[0] == n, mk2.shape[0] == n, forall_range(0, n, lambda r: mk1.at(r) == mk2.at(r), 'r')))
         hyp, goal = stmt_select_unique(n, lambda i: mk1.at(i), lambda i: mk2.at(i), k1, sel1, rank1, k2, sel2, rank2)
         vc.assume(z3.Implies(hyp, goal))                                           # proved by LemmaSelectUnique
-        vc.cut('equal masks select equal rows', goal)
-        vc.cut('both regressions see the same number of rows', z3.And(m1.k == k1, m2.k == k1, Xf1.shape[0] == k1, Xf2.shape[0] == k1))
-        vc.cut('the second regression sees the same responses', forall_range(0, k1, lambda j: y2.at(j) == y1.at(j), 'j'))
-        vc.cut('... and the regressor rows of the first regression times A',
+        steps.cut('equal masks select equal rows', goal)
+        steps.cut('both regressions see the same number of rows', z3.And(m1.k == k1, m2.k == k1, Xf1.shape[0] == k1, Xf2.shape[0] == k1))
+        steps.cut('the second regression sees the same responses', forall_range(0, k1, lambda j: y2.at(j) == y1.at(j), 'j'))
+        steps.cut('... and the regressor rows of the first regression times A',
                forall_range(0, k1, lambda j: z3.And([Xf2.at(j, c) == _rsum(Xf1.at(j, u) * s.A[u][c] for u in range(m)) for c in range(m)]), 'j'))
         # the Gram sums of the second regression, re-read over the responses of the first (pointwise equal summands)
         Tm, Ti = aug(s.A), aug(s.Ai)
-        vc.cut('the Gram sums of the first regression run over the k selected rows', m1.gram.defs(k1, m1.z, m1.y))
-        vc.cut('the Gram sums of the second regression run over the same k rows', m2.gram.defs(k1, m2.z, m2.y))
+        steps.cut('the Gram sums of the first regression run over the k selected rows', m1.gram.defs(k1, m1.z, m1.y))
+        steps.cut('the Gram sums of the second regression run over the same k rows', m2.gram.defs(k1, m2.z, m2.y))
         hyp, goal = stmt_gram_transform(k1, m1.z, m2.z, m1.y, m2.y, Tm, m1.gram, m2.gram)
         vc.assume(z3.Implies(hyp, goal))                                           # proved by LemmaGramTransform
-        vc.cut("the Gram sums of the second regression are T^T G T and T^T Y, T = diag(1, A)", goal)
+        steps.cut("the Gram sums of the second regression are T^T G T and T^T Y, T = diag(1, A)", goal)
         (G, Y), (Gp, Yp) = m1.gram.at(k1), m2.gram.at(k1)
         s.fullrank = det_of(G) != 0
         hyp, goal = stmt_affine_ols(G, Y, Gp, Yp, Tm, Ti, m1.beta, m2.beta)
         vc.assume(z3.Implies(hyp, goal))                                           # proved by LemmaAffineOLS
-        vc.cut('full column rank: the solution of the normal equations is unique, so slope = A slope\' (and the intercepts agree)', z3.Implies(s.fullrank, goal))
+        steps.cut('full column rank: the solution of the normal equations is unique, so slope = A slope\' (and the intercepts agree)', z3.Implies(s.fullrank, goal))
         Gj = z3.And(0 <= j0, j0 < k1)
         hyp, goal = stmt_row_product([Xf1.at(j0, c) for c in range(m)], [Xf2.at(j0, c) for c in range(m)], s.A, m1.beta[1:], m2.beta[1:])
         vc.assume(z3.Implies(hyp, goal))                                           # proved by LemmaAffineOLS row-product
-        vc.cut("row j: x' . slope' = x . slope", z3.Implies(z3.And(Gj, s.fullrank), goal))
-        vc.cut('row j: the two fitted-value sums agree', z3.Implies(z3.And(Gj, s.fullrank), m2.D(m) == m1.D(m)))
+        steps.cut("row j: x' . slope' = x . slope", z3.Implies(z3.And(Gj, s.fullrank), goal))
+        steps.cut('row j: the two fitted-value sums agree', z3.Implies(z3.And(Gj, s.fullrank), m2.D(m) == m1.D(m)))
         s.ready, s.Gj, s.k1 = True, Gj, k1
         return []
 
@@ -2391,6 +2421,10 @@ class AffineReexpression(Contract):
         out = [('two result objects, one adjustment object, one regression and one row mask per call', z3.BoolVal(self._ok(s, result))),
                ('each regression is ordinary least squares with an intercept (LinearRegression constructed with its default estimator settings)',
                 z3.BoolVal(len(s.models) == 2 and _bi.all(mm.plain for mm in s.models)))]
+        if s.has('blocked') and s.blocked:
+            out.append(('affine re-expression: proof step "%s" (abandoned; decided only by a native failing input)' % s.blocked[0],
+                        s.blocked[1] if cur().fin is not None else z3.BoolVal(False)))
+            return out
         if not s.has('ready') or not s.ready:
             return out
         r1, r2 = (mk.kw['outputs']['p0'] for mk in s.Sample.made)
